@@ -1114,7 +1114,7 @@ func (t *Terminal) sgr(s Seq) {
 			if v == 58 {
 				gated = "styledUnderlines"
 			}
-			if direct && !t.Prof.Has(CapRGB) {
+			if direct {
 				if gated == "" {
 					gated = "rgb"
 				} else {
